@@ -54,10 +54,24 @@ def _mk_net1():
     pp.create_gen(net, 3, 0.5, 1.01, name="g0", min_q_mvar=-5, max_q_mvar=5, min_p_mw=0, max_p_mw=2, controllable=True)
     pp.create_ward(net, 5, 0.1, 0.05, 0.1, 0.05, name="w0")
     pp.create_shunt(net, 4, 0.1, name="sh0")
+    # every element kind that can carry a cost sits at the collision bus 4 (gen at 3, ext_grid at 0)
+    pp.create_sgen(net, 4, 0.2, 0.05, name="sg0", controllable=True, max_p_mw=1., min_p_mw=0., max_q_mvar=.5, min_q_mvar=-.5)
+    pp.create_storage(net, 4, 0.1, 1., name="st0", controllable=True, max_p_mw=1., min_p_mw=-1., max_q_mvar=.5, min_q_mvar=-.5)
+    pp.create_dcline(net, 4, 2, 0.2, 1., 0.01, 1.0, 1.0, name="dc0", max_p_mw=1.)
     pp.create_switch(net, 4, 5, "b", closed=False, name="s0")
     pp.create_switch(net, 3, 1, "l", closed=True, name="s1")
     pp.create_switch(net, 3, 0, "t", closed=True, name="s2")
     pp.create_switch(net, 1, 0, "t3", closed=True, name="s3")
+    # open bus-bus switches across the borders of the select_subnet bus sets {0,1,2,3}|{4,5} and {0,1,2}|{3,4,5},
+    # both orientations (bus inside / element outside and vice versa)
+    pp.create_switch(net, 3, 4, "b", closed=False, name="s4")
+    pp.create_switch(net, 4, 3, "b", closed=False, name="s5")
+    pp.create_switch(net, 1, 3, "b", closed=False, name="s6")
+    pp.create_switch(net, 3, 1, "b", closed=False, name="s7")
+    # integer valued reference column whose values overlap the indices (a permutation of them)
+    net.bus["zid"] = [5, 4, 3, 2, 1, 0]
+    net.line["zid"] = [1, 2, 0]
+    net.load["zid"] = [3, 2, 1, 0]
     # measurements: bus, line (str side and numeric side), trafo, trafo3w
     pp.create_measurement(net, "v", "bus", 1.0, 0.01, 3)
     pp.create_measurement(net, "p", "line", 1.0, 0.01, 1, side="from")
@@ -70,6 +84,9 @@ def _mk_net1():
     pp.create_poly_cost(net, 0, "gen", 1.)
     pp.create_poly_cost(net, 1, "load", -1.)
     pp.create_pwl_cost(net, 0, "ext_grid", [[0, 10, 1.], [10, 20, 2.]])
+    pp.create_pwl_cost(net, 0, "sgen", [[0, 1, 1.]])
+    pp.create_poly_cost(net, 0, "storage", 0.5)
+    pp.create_poly_cost(net, 0, "dcline", 1.5)
     # tap characteristics referenced from the trafo tables (ids deliberately not 0..n-1)
     rows = []
     for cid, cols in ((2, ("vk_percent", "vkr_percent")), (5, ("vk_hv_percent", "vkr_hv_percent", "vk_mv_percent",
@@ -94,8 +111,11 @@ def _mk_net1():
     # groups: index members / reference column "name"
     pp.create_group(net, ["bus", "line", "load", "trafo3w", "trafo", "switch"],
                     [[4, 5], [1, 2], [2, 3], [0], [0], [1, 3]], name="gi")
-    pp.create_group(net, ["bus", "line", "load"], [["b3", "b4"], ["l0", "l1"], ["ld2", "ld1"]],
-                    name="gn", reference_columns="name")
+    pp.create_group(net, ["bus", "line", "load", "trafo", "trafo3w", "switch", "gen", "sgen", "storage", "dcline", "impedance",
+                          "ward", "shunt", "ext_grid"],
+                    [["b3", "b4"], ["l0", "l1"], ["ld2", "ld1", "ld0"], ["t0"], ["t3w0"], ["s1", "s3", "s0", "s6"], ["g0"], ["sg0"],
+                     ["st0"], ["dc0"], ["i0"], ["w0"], ["sh0"], ["eg0"]], name="gn", reference_columns="name")
+    pp.create_group(net, ["bus", "line", "load"], [[1, 0], [0], [1, 3]], name="gz", reference_columns="zid")   # buses 4,5 line 2 loads 2,0
     pp.runpp(net)
     return net
 
@@ -341,6 +361,9 @@ REIDX = {
     "load": [("2to9", lambda n: [[2, 9]]), ("swap23", lambda n: [[2, 3], [3, 2]])],
     "group": [("0to5", lambda n: [[0, 5]])],
     "switch": [("swap03", lambda n: [[0, 3], [3, 0]])],
+    "sgen": [("0to3", lambda n: [[0, 3]])],
+    "storage": [("0to2", lambda n: [[0, 2]])],
+    "dcline": [("0to4", lambda n: [[0, 4]])],
     "gen": [("0to4", lambda n: [[0, 4]])],
     "ext_grid": [("0to2", lambda n: [[0, 2]])],
     "measurement": [("shift3", lambda n: _shift(n, "measurement", 3))],
@@ -393,7 +416,8 @@ def ops(s, tier="quick"):
         o.append(["drop_trafos", [0], "trafo"])
     if _has(net, "trafo3w", [0]):
         o.append(["drop_trafos", [0], "trafo3w"])
-    for et, idx in (("load", [2]), ("gen", [0])) + ((("switch", [1]), ("ext_grid", [0]), ("shunt", [0]), ("trafo3w", [0])) if thorough else ()):
+    for et, idx in (("load", [2]), ("gen", [0])) + ((("switch", [1]), ("ext_grid", [0]), ("shunt", [0]), ("trafo3w", [0]), ("sgen", [0]), ("storage", [0]), ("dcline", [0]),
+                                                       ("impedance", [0]), ("ward", [0]), ("trafo", [0]), ("line", [0])) if thorough else ()):
         if _has(net, et, idx):
             o.append(["drop_elements", et, idx])
     if B(3):
